@@ -12,6 +12,9 @@ BASE = [
     'MSH|^~\\&|S|F|R|RF|2020||ORU^R01|1|P|2.3.1\rPID|1\rOBR|1\rOBX|1|ST|a||v\rOBX|2|NM|b||5',
     'MSH|^~\\&|S|F|R|RF|2020||ZZZ^Z01^ZZZ_Z01|1|P|2.5\rZAB|1|2\rPID|1',
     'MSH|^~\\&|S|F|R|RF|2020||QBP^Q11^QBP_Q11|1|P|2.5\rQPD|Q11^X|1|a~b\rRCP|I',
+    # fields of type `varies` with empty components between valued ones, repetitions, fields beyond the defined count
+    'MSH|^~\\&|S|F|R|RF|2020||ORU^R01^ORU_R01|1|P|2.5\rPID|1\rOBR|1\rOBX|1|CE|a||H^^L\rOBX|2|CE|b||^^L~a^^^d\rOBX|3|ST|c||^High',
+    'MSH|^~\\&|S|F|R|RF|2020||QBP^Q11^QBP_Q11|1|P|2.6\rQPD|Q11^X|1|a^^c|^b||x^^^y~z\rRCP|I',
 ]
 
 
